@@ -899,7 +899,7 @@ class C01(fw.Prop):
             cases.append({"seed": rng.randrange(1 << 30), "root": "tdfg"})
         # programs inside the extended builder model (model/Builder2.v): loops, conditionals (cases in any order,
         # if/else), every insert_* variant, CallIndirect, Dfg / TailLoop / Conditional roots (drawn last again)
-        for i in range(150 if tier == "quick" else 1500):
+        for i in range(120 if tier == "quick" else 1500):
             cases.append({"seed": rng.randrange(1 << 30), "root": ["dfg", "loop", "cond", "dfg"][i % 4],
                           "allow": ["nested", "cond", "loop", "order", "md", "insert"],
                           "size": rng.choice([4, 6, 8, 10]), "depth": rng.choice([2, 3, 3, 4])})
